@@ -79,8 +79,8 @@ def floor_divide(
         raise numpoly.FeatureNotSupported(DIVIDE_ERROR_MSG)
     x2 = x2.tonumpy()
     dtype = numpy.common_type(x1, x2)
-    if x1.dtype == x2.dtype == "int64":
-        dtype = "int64"
+    if x1.dtype.kind in "iu" and x2.dtype.kind in "iu":
+        dtype = numpy.result_type(x1.dtype, x2.dtype)
     no_output = out is None
     if out is None:
         out = numpoly.ndpoly(
